@@ -82,9 +82,7 @@ theorem py7zr_reads_back_session {σ} (cfg : WConfig σ) (ms : List WMember) (H0
     (hout : (sessionCompress cfg ms).1.out.length < 2 ^ 64)
     (hus : ∀ us, unpacksizesOf cfg.methodsMap ((sessionCompress cfg ms).1.chain.map (·.fed)) = some us → ∀ v ∈ us, v < 2 ^ 64)
     (hH : sessionHeader cfg ms = some H0) (hW : writeHeaderRaw true H0 pos = some hdr) :
-    ∃ H', (readNextHeader hdr).toOption.map (fun
-        | .raw h' => some h'
-        | _ => none) = some (some H') ∧
+    ∃ H', readNextHeader hdr = .ok (.raw H') ∧
       H'.filesInfo = some { files := sessionReadBackFiles ms, emptyfiles := [] } ∧
       (∃ st sub, H'.mainStreams = some st ∧ st.substreams = some sub ∧
         sub.numUnpack = [(dataMembers ms).length] ∧
